@@ -442,7 +442,11 @@ func (v *Verifier) step(st *State, b *ssa.BasicBlock, i int, in ssa.Instruction)
 			return true
 		}
 		if s := v.sortOf(x.Type()); s != t.Sort {
-			t = v.convStruct(t, x.X.Type(), x.Type())
+			if _, isStruct := v.substT(x.Type()).Underlying().(*types.Struct); isStruct {
+				t = v.convStruct(t, x.X.Type(), x.Type())
+			} else {
+				t = v.convert(st, t, x.X.Type(), x.Type(), in)
+			}
 		}
 		v.bind(st, x, t)
 		return true
@@ -1209,6 +1213,17 @@ func (v *Verifier) sliceOp(st *State, x *ssa.Slice) *Term {
 // quantifier instantiation: keeps the queries ground where possible).
 func (v *Verifier) instantiateAt(st *State, i *Term) {
 	key := i.String()
+	if i.Sort == "Int" {
+		known := false
+		for _, w := range st.idxTerms {
+			if termEq(w, i) {
+				known = true
+			}
+		}
+		if !known && len(st.idxTerms) < 12 {
+			st.idxTerms = append(st.idxTerms, i)
+		}
+	}
 	for k, qf := range st.qfacts {
 		if qf.sort != i.Sort {
 			continue
